@@ -772,6 +772,15 @@ func runC07(c *Ctx) {
 		case 0:
 			p := w.nodes[op.node]
 			n := &c7node{id: op.newID, parent: p, how: op.how, owner: op.task}
+			if p.lg != nil && op.newID%3 == 1 {
+				// a Sync of the parent before the derivation: it may evaluate
+				// pending lazy fields, it must not change anybody's context
+				if mutation {
+					w.force(p)
+				}
+				_ = p.lg.Sync()
+				c.R.Probe("parent logger synced before a derivation")
+			}
 			switch op.how {
 			case c7With:
 				n.fields = w.snapshot(op.fields)
